@@ -81,7 +81,7 @@ func init() {
 // ---- harness-controlled clock, timers and condition variables ----
 
 type timerRec struct {
-	deadline value // nanoseconds on the harness clock
+	deadline value  // nanoseconds on the harness clock
 	fn       value  // AfterFunc callback (nil for channel timers)
 	ch       *ochan // channel timers (NewTimer): the current time is sent on C
 	stopped  bool
